@@ -428,7 +428,7 @@ def pack(w, seed, spec):
     fails = []
     rng = np.random.default_rng(seed)
     only_generic = bool(spec.get('only_generic'))
-    for shape in [(5,), (3, 4), (2, 3, 2)]:
+    for shape in ([(3, 4)] if only_generic else [(5,), (3, 4), (2, 3, 2)]):
         mask = rng.integers(0, 2, shape).astype(bool)
         mask.flat[0] = True
         jm = jnp.asarray(mask)
@@ -501,7 +501,14 @@ def finding_scalar_out(w, seed, spec):
 
 
 def finding_alias(w, seed, spec):
-    return multiplicities(w, seed, dict(spec, only_alias=True))
+    """the witnesses of the (repaired) negative-alias defect: size 2, indices [1, -1, 0] and two more"""
+    fails = []
+    for shape, ax, vals in [((2,), 0, [1, -1, 0]), ((3, 2), 0, [-1, 2, 2, -3, 0]), ((2, 2), 1, [-2, 0, 1, -1])]:
+        try:
+            fails += [msg for kind, msg in _mult_case(shape, ax, 1, vals, False, None) if kind == 'wrong']
+        except Exception as e:      # noqa: BLE001
+            fails.append(f'(P.T @ P).reduce() raises {type(e).__name__} for values {vals} on axis {ax} of {shape}')
+    return fails
 
 
 def finding_unique_pair(w, seed, spec):
